@@ -16,7 +16,9 @@ RULE = (
     "all 840x840 ordered index pairs of the descriptor universe (symbol x id x prefix x weight form); '[]' admits no id/weight "
     "in the notation so its 210 formal combinations collapse onto 5 objects (635 distinct descriptors, 403225 distinct ordered pairs); "
     "a pair is non-trivial when both descriptors are non-empty; distinct_nontrivial counts distinct ordered pairs of distinct non-empty descriptors. "
-    "Each descriptor is built by the constructor and by parsing a token 'C<prefix>[...]'; both builds must answer identically."
+    "Each descriptor is built by the constructor and by parsing a token 'C<prefix>[...]'; both builds must answer identically. The candidate filter "
+    "(get_compatible_bond_descriptor_ids) and the weighted pick built on it (choose_compatible_weight, with hostile weights: every compatible candidate 0 "
+    "or 1e-12 next to heavy incompatible ones, all zero, random) are driven on random sub-lists: weights must never let an incompatible candidate through."
 )
 ASSUMPTIONS = ["ids above 12 and stereo prefixes (/, \\, @: rejected by the constructor) are outside the enumerated universe"]
 SYMS = ["", "$", "<", ">"]
@@ -125,7 +127,10 @@ def run_insitu(case):
 def run_case(case):
     if case.get("insitu"):
         return run_insitu(case)
-    from gbigsmiles.core import get_compatible_bond_descriptor_ids
+    import copy
+
+    import numpy as np
+    from gbigsmiles.core import choose_compatible_weight, get_compatible_bond_descriptor_ids
 
     U, objs = _objects(case["seed"])
     viol, cnt = [], {"pairs": 0, "pairs_nonempty": 0, "expected_true": 0, "is_compatible_calls": 0, "filter_calls": 0}
@@ -182,6 +187,35 @@ def run_case(case):
             got = sorted(int(x) for x in get_compatible_bond_descriptor_ids(lst, None))
             if got != list(range(len(lst))):
                 report("c03.filter-none-differs", f"bond=None must select all indices, got {got}", sa, sa)
+            # the weighted pick built on that filter: whatever the weights (all compatible candidates 0 next to heavy incompatible ones,
+            # tiny, huge), the chosen candidate must be compatible with the probe; no compatible candidate => an error, never a pick
+            probe = next((o for o in objs[i] if o is not None), None)
+            if probe is not None:
+                want = [n for n, k in enumerate(idxs) if compat(ta, triple(U[k]))]
+                mode = rng.choice(["compatible-zero", "random", "compatible-tiny", "all-zero"])
+                lst2 = [copy.deepcopy(o) for o in lst]
+                for n, o in enumerate(lst2):
+                    if getattr(o, "transitions", None) is not None:
+                        o.transitions = None
+                    if mode == "compatible-zero":
+                        o.weight = 0.0 if n in want else rng.choice([1.0, 5.0, 100.0])
+                    elif mode == "compatible-tiny":
+                        o.weight = 1e-12 if n in want else 1e6
+                    elif mode == "all-zero":
+                        o.weight = 0.0
+                    else:
+                        o.weight = rng.choice([0.0, 0.5, 1.0, 3.0])
+                for rep in range(3):
+                    cnt["weighted_pick_calls"] = cnt.get("weighted_pick_calls", 0) + 1
+                    try:
+                        k = int(choose_compatible_weight(lst2, probe, np.random.default_rng(case["seed"] * 7 + rep)))
+                    except Exception:
+                        if want:
+                            cnt["weighted_pick_raised_with_candidates"] = cnt.get("weighted_pick_raised_with_candidates", 0) + 1
+                        continue
+                    if k not in want:
+                        report("c03.weighted-pick-incompatible", f"choose_compatible_weight picked candidate {k} = {lst2[k]} (weights {[o.weight for o in lst2]}, mode {mode}) for probe {text_of(sa)} prefix '{sa[2]}'; compatible candidates are {want}", sa, sa)
+                        break
     out = {"viol": viol, "cnt": cnt}
     if case["rows"][0] == 0:
         out["sample"] = {"pair": [text_of(U[30]), text_of(U[500])], "prefixes": [U[30][2], U[500][2]], "rule_says": compat(triple(U[30]), triple(U[500]))}
